@@ -8,15 +8,24 @@ Recognised:
   lifetime expiry:  LIFETIME (<|<=) <period>  or  <period> (>|>=) LIFETIME      (possibly inside a chain 0 < LIFETIME < p)
   linger expiry:    <period> (>|>=) LINGER    or  LINGER (<|<=) <period>
   guards:           config.X > 0  |  0 < config.X
+Tolerated refactorings: the comparisons / loops may live in private helper methods or module functions that the anchored
+method calls (followed two levels deep); locals may have any name (`age = time.time() - entry[1]`, `now = time.time()`,
+`limit = config.ITER_STREAM_LINGER`, `flag = config.X > 0`, `_, created, since, _ = entry`); logging calls, `pass` and
+the text of messages are ignored; `except X as name` is accepted.  The ITER_* defaults fall back to importing
+Pyro5.configure from the tree under test when Configuration.reset is not a list of literal assignments.
 """
 import ast
-from tools.gen.gen import generator, parse, find_func, need, GenError, HEADER, cN, cbool, ast_sha
+from tools.gen.gen import generator, parse, find_func, find_class, need, GenError, HEADER, cN, cbool, ast_sha, tree_module
 
 
-def cfg_attr(node):
-    """config.NAME -> NAME"""
+def cfg_attr(node, assigns=None):
+    """config.NAME -> NAME (also through a local assigned exactly once to config.NAME)"""
     if isinstance(node, ast.Attribute) and isinstance(node.value, ast.Name) and node.value.id == "config":
         return node.attr
+    if assigns is not None and isinstance(node, ast.Name) and len(assigns.get(node.id, [])) == 1:
+        v = assigns[node.id][0]
+        if isinstance(v, ast.Attribute) and isinstance(v.value, ast.Name) and v.value.id == "config":
+            return v.attr
     return None
 
 
@@ -24,22 +33,72 @@ def is_zero(node):
     return isinstance(node, ast.Constant) and not isinstance(node.value, bool) and node.value in (0, 0.0)
 
 
+def is_clock(node):
+    return isinstance(node, ast.Call) and isinstance(node.func, ast.Attribute) and node.func.attr == "time" \
+        and isinstance(node.func.value, ast.Name) and node.func.value.id == "time" and not node.args and not node.keywords
+
+
+def collect_assigns(func):
+    """name -> list of value nodes; a name bound by tuple unpacking `a, b, c = <Name>` gets ("unpack", index)"""
+    assigns = {}
+    for n in ast.walk(func):
+        if isinstance(n, ast.Assign) and len(n.targets) == 1:
+            t = n.targets[0]
+            if isinstance(t, ast.Name):
+                assigns.setdefault(t.id, []).append(n.value)
+            elif isinstance(t, (ast.Tuple, ast.List)) and isinstance(n.value, ast.Name):
+                for i, e in enumerate(t.elts):
+                    if isinstance(e, ast.Name):
+                        assigns.setdefault(e.id, []).append(("unpack", i))
+    return assigns
+
+
 def period_field(node, assigns):
-    """`time.time() - info[K]` (or a name assigned exactly that, exactly once) -> K"""
+    """`time.time() - <entry>[K]` (or a name assigned exactly that, exactly once; the clock value and the stamp may be
+    locals: `now = time.time()`, `_, created, since, _ = entry`) -> K"""
     if isinstance(node, ast.Name):
         need(node.id in assigns and len(assigns[node.id]) == 1, "period variable %s is not assigned exactly once" % node.id)
         node = assigns[node.id][0]
-    need(isinstance(node, ast.BinOp) and isinstance(node.op, ast.Sub), "expiry period is not `time.time() - info[K]`")
+    need(isinstance(node, ast.BinOp) and isinstance(node.op, ast.Sub), "expiry period is not `time.time() - <entry>[K]`")
     l, r = node.left, node.right
     if isinstance(l, ast.Name):      # now = time.time() taken once
         need(l.id in assigns and len(assigns[l.id]) == 1, "clock variable %s is not assigned exactly once" % l.id)
         l = assigns[l.id][0]
-    need(isinstance(l, ast.Call) and isinstance(l.func, ast.Attribute) and l.func.attr == "time" and isinstance(l.func.value, ast.Name)
-         and l.func.value.id == "time" and not l.args and not l.keywords, "expiry period does not start from time.time()")
-    need(isinstance(r, ast.Subscript) and isinstance(r.value, ast.Name) and r.value.id == "info", "expiry period does not subtract info[K]")
+    need(is_clock(l), "expiry period does not start from time.time()")
+    if isinstance(r, ast.Name):
+        need(len(assigns.get(r.id, [])) == 1, "stamp variable %s is not assigned exactly once" % r.id)
+        v = assigns[r.id][0]
+        if isinstance(v, tuple) and v[0] == "unpack":
+            return v[1]
+        r = v
+    need(isinstance(r, ast.Subscript) and isinstance(r.value, ast.Name), "expiry period does not subtract <entry>[K]")
     idx = r.slice
-    need(isinstance(idx, ast.Constant) and isinstance(idx.value, int), "info[...] index is not an integer literal")
+    need(isinstance(idx, ast.Constant) and isinstance(idx.value, int) and not isinstance(idx.value, bool), "<entry>[...] index is not an integer literal")
     return idx.value
+
+
+def helper_closure(mod, clsname, func, depth=2):
+    """func plus the private helpers it calls (self.<method>() of the same class, module-level functions), `depth` levels deep"""
+    cls = find_class(mod, clsname)
+    methods = {n.name: n for n in cls.body if isinstance(n, (ast.FunctionDef, ast.AsyncFunctionDef))}
+    functions = {n.name: n for n in mod.body if isinstance(n, (ast.FunctionDef, ast.AsyncFunctionDef))}
+    seen, frontier = [func], [func]
+    for _ in range(depth):
+        nxt = []
+        for f in frontier:
+            for n in ast.walk(f):
+                if not isinstance(n, ast.Call):
+                    continue
+                tgt = None
+                if isinstance(n.func, ast.Attribute) and isinstance(n.func.value, ast.Name) and n.func.value.id == "self":
+                    tgt = methods.get(n.func.attr)
+                elif isinstance(n.func, ast.Name):
+                    tgt = functions.get(n.func.id)
+                if tgt is not None and all(tgt is not x for x in seen):
+                    seen.append(tgt)
+                    nxt.append(tgt)
+        frontier = nxt
+    return seen
 
 
 def pairs(cmp_):
@@ -51,38 +110,50 @@ def pairs(cmp_):
     return out
 
 
-def analyse(func, names):
-    """all comparisons in func that mention config.<one of names>:
+def analyse(funcs, names):
+    """all comparisons in the functions that mention config.<one of names> (directly or through a local):
        returns {name: {"guards": n_positive_guards, "expiry": [(strict, K)]}}"""
-    assigns = {}
-    for n in ast.walk(func):
-        if isinstance(n, ast.Assign) and len(n.targets) == 1 and isinstance(n.targets[0], ast.Name):
-            assigns.setdefault(n.targets[0].id, []).append(n.value)
     res = {nm: {"guards": 0, "expiry": []} for nm in names}
-    for n in ast.walk(func):
-        if not isinstance(n, ast.Compare):
-            continue
-        for left, op, right in pairs(n):
-            la, ra = cfg_attr(left), cfg_attr(right)
-            if la not in names and ra not in names:
+    for func in funcs:
+        assigns = collect_assigns(func)
+        for n in ast.walk(func):
+            if not isinstance(n, ast.Compare):
                 continue
-            need(not (la in names and ra in names), "comparison between two configuration items")
-            name = la if la in names else ra
-            other = right if la in names else left
-            if is_zero(other):
-                ok = (la in names and isinstance(op, ast.Gt)) or (ra in names and isinstance(op, ast.Lt))
-                need(ok, "guard on %s is not `%s > 0`" % (name, name))
-                res[name]["guards"] += 1
-                continue
-            k = period_field(other, assigns)
-            if la in names:      # LIMIT op period
-                need(isinstance(op, (ast.Lt, ast.LtE)), "expiry test on %s has the wrong direction or operator" % name)
-                strict = isinstance(op, ast.Lt)
-            else:                # period op LIMIT
-                need(isinstance(op, (ast.Gt, ast.GtE)), "expiry test on %s has the wrong direction or operator" % name)
-                strict = isinstance(op, ast.Gt)
-            res[name]["expiry"].append((strict, k))
+            for left, op, right in pairs(n):
+                la, ra = cfg_attr(left, assigns), cfg_attr(right, assigns)
+                if la not in names and ra not in names:
+                    continue
+                need(not (la in names and ra in names), "comparison between two configuration items")
+                name = la if la in names else ra
+                other = right if la in names else left
+                if is_zero(other):
+                    ok = (la in names and isinstance(op, ast.Gt)) or (ra in names and isinstance(op, ast.Lt))
+                    need(ok, "guard on %s is not `%s > 0`" % (name, name))
+                    res[name]["guards"] += 1
+                    continue
+                k = period_field(other, assigns)
+                if la in names:      # LIMIT op period
+                    need(isinstance(op, (ast.Lt, ast.LtE)), "expiry test on %s has the wrong direction or operator" % name)
+                    strict = isinstance(op, ast.Lt)
+                else:                # period op LIMIT
+                    need(isinstance(op, (ast.Gt, ast.GtE)), "expiry test on %s has the wrong direction or operator" % name)
+                    strict = isinstance(op, ast.Gt)
+                res[name]["expiry"].append((strict, k))
     return res
+
+
+def is_logging(st):
+    """a statement without effect on the property: a logging call, `pass`, a bare string"""
+    if isinstance(st, ast.Pass):
+        return True
+    if isinstance(st, ast.Expr) and isinstance(st.value, ast.Constant):
+        return True
+    if isinstance(st, ast.Expr) and isinstance(st.value, ast.Call):
+        f = st.value.func
+        while isinstance(f, ast.Attribute):
+            f = f.value
+        return isinstance(f, ast.Name) and f.id in ("log", "logger", "logging", "warnings")
+    return False
 
 
 COMM_CLASSES = {"CommunicationError", "ConnectionClosedError", "TimeoutError", "ProtocolError", "MessageTooLargeError"}
@@ -108,6 +179,8 @@ def next_drop_policy(func):
         need(body and isinstance(body[-1], ast.Raise) and body[-1].exc is None, "an except-clause of __next__ does not end in a bare raise")
         drops = False
         for st in body[:-1]:
+            if is_logging(st):
+                continue
             ok = isinstance(st, ast.Assign) and len(st.targets) == 1 and isinstance(st.targets[0], ast.Attribute) \
                 and isinstance(st.targets[0].value, ast.Name) and st.targets[0].value.id == "self" and st.targets[0].attr == "proxy" \
                 and isinstance(st.value, ast.Constant) and st.value.value is None
@@ -148,12 +221,12 @@ def is_table(node):
     return isinstance(node, ast.Attribute) and node.attr == "streaming_responses"
 
 
-def disconnect_rereads(func):
+def disconnect_rereads(funcs):
     """_clientDisconnect: is every *assignment* `self.streaming_responses[k] = ...` inside a loop accompanied, in the
     same loop body, by a re-read of that entry (`.get(k ...)`, `[k]` load, `k in ...`)?  (Writing an entry back from a
     snapshot taken before the loop would resurrect a stream another thread removed meanwhile; deletions cannot.)"""
     ok = True
-    for loop in [n for n in ast.walk(func) if isinstance(n, (ast.For, ast.While))]:
+    for loop in [n for func in funcs for n in ast.walk(func) if isinstance(n, (ast.For, ast.While))]:
         body_nodes = [n for st in loop.body for n in ast.walk(st)]
         for n in body_nodes:
             if isinstance(n, ast.Assign):
@@ -177,6 +250,32 @@ def disconnect_rereads(func):
     return ok
 
 
+ITER_KEYS = ("ITER_STREAMING", "ITER_STREAM_LIFETIME", "ITER_STREAM_LINGER")
+
+
+def defaults_ast(tree):
+    cfgmod, _ = parse(tree, "Pyro5/configure.py")
+    reset = find_func(cfgmod, "reset", "Configuration")
+    defaults = {}
+    for st in reset.body:
+        if isinstance(st, ast.Assign) and len(st.targets) == 1 and isinstance(st.targets[0], ast.Attribute) \
+                and isinstance(st.targets[0].value, ast.Name) and st.targets[0].value.id == "self" \
+                and st.targets[0].attr in ITER_KEYS:
+            need(st.targets[0].attr not in defaults, "default of %s assigned twice" % st.targets[0].attr)
+            need(isinstance(st.value, ast.Constant), "default of %s is not a literal" % st.targets[0].attr)
+            defaults[st.targets[0].attr] = st.value.value
+    need(len(defaults) == 3, "ITER_* defaults not found in Configuration.reset")
+    return defaults
+
+
+def defaults_evaluated(tree):
+    """second reader: the defaults as Configuration.reset(use_environment=False) sets them in the tree under test"""
+    m = tree_module(tree, "Pyro5.configure")
+    c = m.Configuration.__new__(m.Configuration)
+    c.reset(use_environment=False)
+    return {k: getattr(c, k) for k in ITER_KEYS}
+
+
 @generator("GenStreams", "Pyro5/server.py", "Pyro5/configure.py", "Pyro5/client.py")
 def gen_streams(tree):
     mod, _ = parse(tree, "Pyro5/server.py")
@@ -185,7 +284,7 @@ def gen_streams(tree):
     nxt = find_func(mod, "get_next_stream_item", "DaemonObject")
     cls = find_func(mod, "close_stream", "DaemonObject")
     names = ("ITER_STREAM_LIFETIME", "ITER_STREAM_LINGER")
-    a = analyse(hk, names)
+    a = analyse(helper_closure(mod, "Daemon", hk), names)
     life, ling = a["ITER_STREAM_LIFETIME"], a["ITER_STREAM_LINGER"]
     need(len(life["expiry"]) == 1, "expected exactly one lifetime expiry comparison in _housekeeping, found %d" % len(life["expiry"]))
     need(len(ling["expiry"]) == 1, "expected exactly one linger expiry comparison in _housekeeping, found %d" % len(ling["expiry"]))
@@ -193,20 +292,16 @@ def gen_streams(tree):
     need(ling["guards"] >= 1, "_housekeeping has no `ITER_STREAM_LINGER > 0` guard")
     need(life["expiry"][0][1] == 1, "lifetime is not measured from the creation stamp info[1]")
     need(ling["expiry"][0][1] == 2, "linger is not measured from the linger stamp info[2]")
-    b = analyse(cd, ("ITER_STREAM_LINGER",))["ITER_STREAM_LINGER"]
-    need(b["guards"] == 1 and not b["expiry"], "_clientDisconnect does not branch on `ITER_STREAM_LINGER > 0` exactly once")
-    # defaults
-    cfgmod, _ = parse(tree, "Pyro5/configure.py")
-    reset = find_func(cfgmod, "reset", "Configuration")
-    defaults = {}
-    for st in reset.body:
-        if isinstance(st, ast.Assign) and len(st.targets) == 1 and isinstance(st.targets[0], ast.Attribute) \
-                and isinstance(st.targets[0].value, ast.Name) and st.targets[0].value.id == "self" \
-                and st.targets[0].attr in ("ITER_STREAMING", "ITER_STREAM_LIFETIME", "ITER_STREAM_LINGER"):
-            need(st.targets[0].attr not in defaults, "default of %s assigned twice" % st.targets[0].attr)
-            need(isinstance(st.value, ast.Constant), "default of %s is not a literal" % st.targets[0].attr)
-            defaults[st.targets[0].attr] = st.value.value
-    need(len(defaults) == 3, "ITER_* defaults not found in Configuration.reset")
+    cd_funcs = helper_closure(mod, "Daemon", cd)
+    b = analyse(cd_funcs, ("ITER_STREAM_LINGER",))["ITER_STREAM_LINGER"]
+    need(b["guards"] >= 1 and not b["expiry"], "_clientDisconnect does not branch on `ITER_STREAM_LINGER > 0`")
+    # defaults: ast reader first, evaluated by Python itself as the second reader
+    mode = "ast"
+    try:
+        defaults = defaults_ast(tree)
+    except GenError:
+        defaults = defaults_evaluated(tree)
+        mode = "evaluated"
     need(isinstance(defaults["ITER_STREAMING"], bool), "ITER_STREAMING default is not a bool")
     for k in ("ITER_STREAM_LIFETIME", "ITER_STREAM_LINGER"):
         v = defaults[k]
@@ -226,7 +321,7 @@ def gen_streams(tree):
     out += "Definition default_streaming : bool := %s.\n" % cbool(defaults["ITER_STREAMING"])
     out += "Definition default_lifetime : N := %s.\n" % cN(int(defaults["ITER_STREAM_LIFETIME"]))
     out += "Definition default_linger : N := %s.\n" % cN(int(defaults["ITER_STREAM_LINGER"]))
-    rr = disconnect_rereads(cd)
+    rr = disconnect_rereads(cd_funcs)
     out += "(* _clientDisconnect re-reads every stream table entry it writes back, inside the loop iteration that writes it *)\n"
     out += "Definition gen_disconnect_rereads : bool := %s.\n" % cbool(rr)
     out += "(* _StreamResultIterator.__next__ drops its proxy reference (ends for good) on: %s *)\n" % (", ".join(polnames) or "nothing")
@@ -234,6 +329,6 @@ def gen_streams(tree):
     out += "Definition gen_drop_raised : bool := %s.  (* an error raised by the remote iterator *)\n" % cbool(pol["raised"])
     out += "Definition gen_drop_error : bool := %s.   (* PyroError 'item stream terminated' *)\n" % cbool(pol["error"])
     out += "Definition gen_drop_comm : bool := %s.    (* CommunicationError (connection lost, timeout) *)\n" % cbool(pol["comm"])
-    return out, {"next_policy": pol, "next_classes": polnames, "lifetime_strict": life["expiry"][0][0], "linger_strict": ling["expiry"][0][0], "defaults": defaults,
+    return out, {"mode": mode, "next_policy": pol, "next_classes": polnames, "lifetime_strict": life["expiry"][0][0], "linger_strict": ling["expiry"][0][0], "defaults": defaults,
                  "ast_sha": {"_housekeeping": ast_sha(hk), "_clientDisconnect": ast_sha(cd), "get_next_stream_item": ast_sha(nxt),
                              "close_stream": ast_sha(cls), "__next__": ast_sha(nx)}}
